@@ -2,5 +2,6 @@ SPECIFICATION Spec
 CONSTANTS
   MaxDays = 4
   ZoneKinds <- ZK
+  Twin <- TW
 INVARIANT IImpliesP
 INVARIANT RowShape
